@@ -172,6 +172,33 @@ CHECKS_K1 = {
                 "thorough cross-check: periodicrun.py (virtual-time grid + real-thread runs with a 20 ms period) - bounded.",
         "technique": "function/closure contracts with frame induction, loop invariant (one arbitrary iteration), symbolic execution of the real code, SMT",
     },
+    "C37": {
+        "text": "Contracts on the real source factories, each as 'subscribe + one arbitrary tick': subscribe emits nothing itself, makes "
+                "exactly the one scheduling call named below and returns a disposable holding it; the tick closure, run from an ARBITRARY "
+                "tick state (iterator position / loop cells), emits exactly what the equivalent Python loop yields at that point and "
+                "either reschedules ITSELF exactly once or emits the terminal - by induction over the ticks the whole emission is the "
+                "Python sequence followed by its terminal. range_: the iterable is Python's range called with the caller's own "
+                "arguments (1, 2 or 3 of them), one item per tick, completed at exhaustion. from_iterable_: one iterator, one scheduled "
+                "action whose loop (cut at an invariant: arbitrary position, disposed or not, the subscriber may dispose inside on_next) "
+                "asks the iterator once per round, emits exactly that item and goes on, emits on_completed at StopIteration, on_error "
+                "with the iterator's exception, and leaves silently only when disposed; disposing the result sets the stop flag and "
+                "cancels the action. of = from_iterable of its arguments. return_value_ (value then completed), empty_, never_ "
+                "(schedules nothing), throw_ (the given exception, or Exception(message)). generate_: each tick steps the loop `s = "
+                "init; while cond(s): yield s; s = iterate(s)` exactly once, a raising user function ends in on_error and nothing "
+                "more. generate_with_relative_time_: each state is emitted one tick after it was computed and the tick is rescheduled "
+                "with exactly the delay computed for the new state - whatever it is, zero included. timer(d): scheduled at once for "
+                "d <= 0, after d otherwise (or at the date), emits 0 then completed. timer with a period / interval: see C35.",
+        "note": "Trusted: rxvc; z3; the scheduler is opaque (that it runs a scheduled tick once, at its time, is C28/C30); iterables and "
+                "iterators follow the iterator protocol over an arbitrary abstract sequence (iter gives a fresh iterator at position 0; "
+                "next yields item i and advances, raises StopIteration at the end, or raises anything else); Python's range is trusted "
+                "(the obligation is that it is called with the caller's arguments); user functions are deterministic uninterpreted "
+                "functions that may raise (A-cb) and the delay function returns a time, not None; A-time. repeat_value (return_value "
+                "piped through repeat) waits for the C10 contracts and is covered by the native cross-check only; throw_ ignores the "
+                "scheduler given to the factory (it uses the one given to subscribe) - outside the statement, noted. Replay and "
+                "thorough cross-check: srcrun.py (argument grids on a VirtualTimeScheduler against the Python computations, emission "
+                "times included) - bounded.",
+        "technique": "function/closure contracts (subscribe + one arbitrary tick, loop invariant for the drain loop), symbolic execution of the real code, SMT",
+    },
     "C42": {
         "text": "Function and closure contracts on the real CatchScheduler under a class invariant I (handler fixed; a cached recursive "
                 "wrapper is a CatchScheduler with the same handler wrapping `_recursive_original`), each proved from an ARBITRARY object "
